@@ -46,9 +46,9 @@ _P = lambda g=V, t="TEXT": [t, g]                                    # noqa: E73
 _M = lambda ins, outs: (ins, outs)                                   # noqa: E731
 
 
-def _shape(name, mods, wires, exts, post=()):
+def _shape(name, mods, wires, exts, post=(), echo=()):
     n = len(mods) + sum(1 for e in post if e[0] == "mod")
-    return {"name": name, "mods": mods, "wires": wires, "exts": exts, "post": [list(e) for e in post],
+    return {"name": name, "mods": mods, "wires": wires, "exts": exts, "post": [list(e) for e in post], "echo": list(echo),
             "flags": (True, False) if n <= 2 else (True,), "n": n}
 
 
@@ -75,6 +75,10 @@ SHAPES = [
     _shape("late_fanin3", [_M([_P()], [_P()]), _M([], [_P()]), _M([_P()], [_P()])], [(0, 0, 2, 0)], [(0, 0)],
            post=[("wire", 1, 0, 2, 0)]),
     _shape("late_wire_over_ext2", [_M([_P()], []), _M([], [_P()])], [], [(0, 0)], post=[("wire", 1, 0, 0, 0)]),
+    # ---- a wired port additionally seeded with exactly the value its feeder will deliver
+    _shape("echo_seed_consumer_first2", [_M([_P()], []), _M([], [_P()])], [(1, 0, 0, 0)], [], echo=[(0, 0)]),
+    _shape("echo_seed_chain2", [_M([_P()], [_P()]), _M([_P()], [_P()])], [(0, 0, 1, 0)], [(0, 0)], echo=[(1, 0)]),
+    _shape("echo_seed_cycle2", [_M([_P()], [_P()]), _M([_P()], [_P()])], [(0, 0, 1, 0), (1, 0, 0, 0)], [], echo=[(0, 0)]),
     _shape("late_fix3", [_M([_P()], [_P()]), _M([_P(), _P()], [_P()]), _M([_P()], [_P()])],
            [(0, 0, 1, 0), (1, 0, 2, 0)], [(0, 0)], post=[("wire", 0, 0, 1, 1)]),
 ]
@@ -100,7 +104,10 @@ RULE = (f"run i < {TABLE_SIZE} is the i-th case of the complete table: {len(SHAP
         "random attempts incl. unknown ports), external inputs raw / labelled / mislabelled / missing / doubled with a "
         "wire, a per-run share of misbehaving handlers, enforce_static_checks off in a third of the runs, and in 40 % "
         "of the runs a second phase (new modules, further wire attempts, external inputs added or withdrawn, late "
-        "handler registration) followed by a second execute() on the same executor; module and port names are m0/i0/o0, "
+        "handler registration) followed by a second execute() on the same executor; wired ports additionally seeded "
+        "with exactly the value their feeder delivers (three table shapes and sampled); the initial diagram built by "
+        "add_module, through WiringDiagram(modules=...) plus one add_module, or as a copy of another diagram's "
+        "modules; module and port names are m0/i0/o0, "
         "or an input and an output port of a module share a name, or dotted names whose '<module>.<port>' strings "
         "coincide (per sampled run); the capability question is asked, "
         "the answer edited by the caller, asked again, and asked of a second diagram that reuses the first ModuleSpec "
@@ -131,6 +138,8 @@ ASSUMPTIONS = [
     "only wires attempted through connect() are generated: a diagram holding a directly appended Wire that connect() "
     "would refuse is not an 'accepted diagram' (with enforce_static_checks=False the unchanged code delivers over such a "
     "wire unchecked, and the statement has no flag exemption)",
+    "WiringDiagram(modules={...}) and WiringDiagram(modules=dict(other.modules)) are public ways of building a diagram "
+    "and count like add_module; an external input that equals what a wire delivers is still a second source",
     "the declared capability sets are the harness's own copy of the plan; a returned answer belongs to the caller "
     "(editing it must not change later answers), and a ModuleSpec reused in a second diagram still declares what it "
     "was built with",
@@ -143,7 +152,8 @@ EXPECT_PROBES = ("executed", "wiring_error", "cycle", "fan_in", "ext_plus_wire",
                  "second_execute_after_late_wire", "second_execute_after_late_module", "static_checks_off",
                  "static_off_unwired_handlerless_module", "caps_answer_edited", "caps_spec_reused",
                  "connect_verdict_differs_for_same_named_output_port", "dotted_names_two_wired_ports_one_flat_key",
-                 "dotted_names_unwired_port_shares_flat_key_with_wired_one")
+                 "dotted_names_unwired_port_shares_flat_key_with_wired_one", "external_seed_equals_wired_value",
+                 "diagram_built_through_constructor", "diagram_built_as_copy")
 
 
 class HandlerBoom(RuntimeError):
@@ -182,6 +192,8 @@ def _table_case(i):
                 pre.append([m, p, "tv", DT[(DT.index(t) + 1) % len(DT)], g])
             else:
                 pre.append([m, p, "tv", t, {"label_U": U, "label_V": V, "label_T": T}[kd]])
+        for (m, p) in sh["echo"]:
+            pre.append([m, p, "echo"])
         post, q = [], len(mods)
         for e in sh["post"]:
             if e[0] == "mod":
@@ -255,8 +267,8 @@ def _sampled(rng, tier):
             if cands and r < 0.72:
                 s = rng.choice(cands)
                 ops.append([s[0], s[1], m, p])
-                if rng.random() < 0.04:
-                    pre.append(_ext_entry(rng, m, p, modules[m]["ins"][p], 0.0))      # external value AND a wire
+                if rng.random() < 0.07:                                              # external value AND a wire
+                    pre.append([m, p, "echo"] if rng.random() < 0.5 else _ext_entry(rng, m, p, modules[m]["ins"][p], 0.0))
             elif r < (0.88 if two_phase else 0.95):
                 pre.append(_ext_entry(rng, m, p, modules[m]["ins"][p], p_ext_bad))
             # else: no source at all
@@ -291,6 +303,7 @@ def _sampled(rng, tier):
     plan = {"config": {"family": "sampled", "shape": "structured" if structured else "random",
                        "static": rng.random() >= 0.33,
                        "names": weighted(rng, [(5, "distinct"), (3, "shared"), (2, "dotted")]),
+                       "build": weighted(rng, [(5, "add"), (3, "ctor"), (2, "copy")]),
                        "caps_edit": rng.choice(["none", "clear", "clear", "add", "discard"])},
             "modules": modules, "ops": ops, "pre": pre}
     if not two_phase:
@@ -299,7 +312,8 @@ def _sampled(rng, tier):
     post = []
     sourced = {(o[2], o[3]) for o in ops} | {(e[0], e[1]) for e in pre}
     for _ in range(rng.choice([1, 1, 2, 3])):
-        act = weighted(rng, [(3, "extend"), (3, "second_source"), (2, "fix"), (1.5, "attempt"), (1, "unext"), (1.5, "reg")])
+        act = weighted(rng, [(3, "extend"), (3, "second_source"), (2, "fix"), (1.5, "attempt"), (1, "unext"), (1.5, "reg"),
+                             (1, "seed_echo")])
         if act == "extend" and len(modules) < 7:
             md = _new_module(rng, types, p_bad)
             modules.append(md)                       # visible to outs_all()/ins_all() below; moved into `post` at the end
@@ -336,6 +350,10 @@ def _sampled(rng, tier):
         elif act == "attempt" and outs_all() and ins_all():
             s, d = rng.choice(outs_all()), rng.choice(ins_all())
             post.append(["wire", s[0], s[1], d[0], d[1]])
+        elif act == "seed_echo" and ops:
+            o = rng.choice(ops)
+            if o[3] < len(modules[o[2]]["ins"]):
+                post.append(["ext", o[2], o[3], "echo"])
         elif act == "unext" and pre:
             e = rng.choice(pre)
             post.append(["unext", e[0], e[1]])
@@ -364,6 +382,8 @@ def simplify(plan):
         yield {**plan, "config": {**cfg, "caps_edit": "none"}}
     if cfg.get("names", "distinct") != "distinct":
         yield {**plan, "config": {**cfg, "names": "distinct"}}
+    if cfg.get("build", "add") != "add":
+        yield {**plan, "config": {**cfg, "build": "add"}}
     post = plan.get("post") or []
     refs_post = lambda j: any((e[0] == "wire" and j in (e[1], e[3])) or (e[0] in ("ext", "unext", "reg") and e[1] == j)  # noqa: E731
                               for e in post)
@@ -467,8 +487,8 @@ class _World:
         self.names = self.cfg.get("names", "distinct")
         self.mods = []            # the harness's copy of every module declaration (never read back from the specs)
         self.specs = []
-        self.d = WiringDiagram()
-        self.ex = DiagramExecutor(self.d)
+        self.d = None
+        self.ex = None
         self.accepted = []
         self.refused = 0
         self.ext = {}             # (module, port) -> ("raw", token) | ("tv", type, integrity, token)
@@ -496,6 +516,49 @@ class _World:
         return f"p{p}" if self.names == "shared" else f"o{p}"
 
     # ---- building
+    def build(self, modules):
+        """The initial diagram: through add_module, through the public constructor parameter `modules=` (all but the
+        last module, which is then added), or as a copy `WiringDiagram(modules=dict(other.modules))`."""
+        how = self.cfg.get("build", "add")
+        made = [self._spec(len(self.mods) + q, m) for q, m in enumerate(modules)]
+        if how == "add" or not made:
+            self.d = WiringDiagram()
+            pre_made, rest = [], made
+        elif how == "ctor":
+            cut = max(1, len(made) - 1)
+            pre_made, rest = made[:cut], made[cut:]
+            self.d = WiringDiagram(modules={sp.name: sp for _, sp in pre_made})
+            self.k.probe("diagram_built_through_constructor")
+        else:
+            other = WiringDiagram()
+            for _, sp in made:
+                other.add_module(sp)
+            pre_made, rest = made, []
+            self.d = WiringDiagram(modules=dict(other.modules))
+            self.k.probe("diagram_built_as_copy")
+        for m, sp in pre_made:
+            self.mods.append(m)
+            self.specs.append(sp)
+        for m, sp in rest:
+            out = call(self.d.add_module, sp, tracer=self.tr)
+            if out.kind != "ok":
+                raise HarnessError(f"add_module failed: {out.brief()}")
+            self.mods.append(m)
+            self.specs.append(sp)
+        self.ex = DiagramExecutor(self.d)
+        for j, m in enumerate(self.mods):
+            if m["handler"] is not None:
+                self.register(j)
+
+    def _spec(self, j, m):
+        m = {"ins": [list(p) for p in m["ins"]], "outs": [list(p) for p in m["outs"]], "caps": list(m["caps"]),
+             "handler": None if m["handler"] is None else list(m["handler"])}
+        return m, ModuleSpec(
+            name=self.mn(j),
+            inputs={self.inn(j, p): PortType(DataType[t], IntegrityLabel(g)) for p, (t, g) in enumerate(m["ins"])},
+            outputs={self.outn(j, p): PortType(DataType[t], IntegrityLabel(g)) for p, (t, g) in enumerate(m["outs"])},
+            capabilities={Capability[c] for c in m["caps"]})
+
     def add_module(self, m, late=False):
         j = len(self.mods)
         m = {"ins": [list(p) for p in m["ins"]], "outs": [list(p) for p in m["outs"]], "caps": list(m["caps"]),
@@ -573,6 +636,8 @@ class _World:
             return
         if e[2] == "raw":
             self.ext[(m, p)] = ("raw", f"x{m}.{p}")
+        elif e[2] == "echo":
+            self.ext[(m, p)] = ("echo",)       # exactly what the feeding handler will deliver (decided at execute time)
         else:
             self.ext[(m, p)] = ("tv", e[3], e[4], f"x{m}.{p}")
 
@@ -608,9 +673,12 @@ class _World:
             ask(self.d, everything, "second_answer_differs")
         # a ModuleSpec is a value object: reused in another diagram it declares what it was built with
         idxs = [0] if len(mods) < 3 else [0, len(mods) - 1]
-        d2 = WiringDiagram()
-        for j in idxs:
-            d2.add_module(self.specs[j])
+        if self.cfg.get("build", "add") == "add":
+            d2 = WiringDiagram()
+            for j in idxs:
+                d2.add_module(self.specs[j])
+        else:
+            d2 = WiringDiagram(modules={self.specs[j].name: self.specs[j] for j in idxs})
         k.probe("caps_spec_reused")
         ask(d2, idxs, "reused_module_spec_reports_undeclared_capabilities")
 
@@ -756,7 +824,16 @@ class _World:
 
         external = {}
         for (m, p), e in sorted(ext.items()):
-            val = e[1] if e[0] == "raw" else TypedValue(DataType[e[1]], IntegrityLabel(e[2]), e[3])
+            if e[0] == "echo":
+                if (m, p) in sources:
+                    s_, sp_ = sources[(m, p)][0]
+                    st_, sg_ = mods[s_]["outs"][sp_]
+                    val = TypedValue(DataType[st_], IntegrityLabel(sg_), f"v{s_}.{sp_}")
+                    k.probe("external_seed_equals_wired_value")
+                else:
+                    val = f"x{m}.{p}"
+            else:
+                val = e[1] if e[0] == "raw" else TypedValue(DataType[e[1]], IntegrityLabel(e[2]), e[3])
             external.setdefault(self.mn(m), {})[self.inn(m, p)] = val
         if ext_bad:
             k.probe("ext_mislabelled")
@@ -862,8 +939,7 @@ def run(plan, k):
     scope = [seams.src("operon_ai/core/wiring_runtime.py"), seams.src("operon_ai/core/wagent.py")]
     with SeqTracer(k, scope, STEP_BUDGET) as tr:
         w = _World(k, plan, tr)
-        for m in plan["modules"]:
-            w.add_module(m)
+        w.build(plan["modules"])
         # ---------------- building: connect accepts <=> same data type and source integrity >= destination integrity
         for op in plan["ops"]:
             if not w.connect(op):
